@@ -6,6 +6,8 @@
 #include "../core/core.hpp"
 #include "fenv_iface.hpp"
 #include <cmath>
+#include <csetjmp>
+#include <csignal>
 
 using namespace sim;
 
@@ -26,6 +28,15 @@ void apply_env(const Env& e) {
     std::uint32_t mx = MX_DEFAULT | ((std::uint32_t)e.rc << 13) | (e.ftz ? 0x8000u : 0) | (e.daz ? 0x40u : 0);
     set_mxcsr(mx);
     set_cw((std::uint16_t)((CW_DEFAULT & ~0x0C00) | (e.rc << 10)));
+}
+
+// A signal raised inside an AVEL operation (SIGFPE from an integer division, SIGILL, SIGSEGV) must not kill the worker:
+// it is converted into a violation of the property the operation serves.
+sigjmp_buf g_opjmp; volatile int g_opjmp_armed = 0; volatile int g_opsig = 0;
+void on_op_signal(int sig) { if (g_opjmp_armed) { g_opsig = sig; g_opjmp_armed = 0; siglongjmp(g_opjmp, 1); } std::signal(sig, SIG_DFL); raise(sig); }
+template<class F> inline bool guarded(F f) {
+    if (sigsetjmp(g_opjmp, 0) == 0) { g_opjmp_armed = 1; f(); g_opjmp_armed = 0; return true; }
+    return false;
 }
 
 //------------------------------------------------------------ fn table
@@ -109,6 +120,7 @@ struct FenvEngine : Engine {
 
     std::string init(const std::string& p, const std::string& t) override {
         prop = p; tier = t;
+        { struct sigaction sa; std::memset(&sa, 0, sizeof sa); sa.sa_handler = on_op_signal; sa.sa_flags = SA_NODEFER; sigaction(SIGFPE, &sa, nullptr); sigaction(SIGILL, &sa, nullptr); sigaction(SIGSEGV, &sa, nullptr); sigaction(SIGBUS, &sa, nullptr); }
         std::size_t n; const FOp* tab = fenv_registry(&n);
         for (std::size_t i = 0; i < n; ++i) {
             const FnInfo* fi = fninfo(tab[i].fn);
@@ -278,10 +290,15 @@ struct FenvEngine : Engine {
         apply_env(env);
         const std::uint32_t mx0 = get_mxcsr(); const std::uint16_t cw0 = get_cw();
         asm volatile("" ::: "memory");
-        o.op->call(a, b, out);
+        bool returned = guarded([&] { o.op->call(a, b, out); });
         asm volatile("" ::: "memory");
         const std::uint32_t mx1 = get_mxcsr(); const std::uint16_t cw1 = get_cw();
         char envs[48]; std::snprintf(envs, sizeof envs, "rc=%s", RCNAME[env.rc]);
+        if (!returned) {
+            apply_env(Env()); char d[160]; std::snprintf(d, sizeof d, "%s(%s) raised signal %d (a=%llx b=%llx in lane 0)", o.op->fn, o.op->type, (int)g_opsig, (unsigned long long)a[0], (unsigned long long)b[0]);
+            rr.log.linef("%d call %s %s SIGNAL %d", stepno, o.op->fn, o.op->type, (int)g_opsig);
+            rr.violate(o.fi->prop, stepno, {o.fi->prop, "signal", o.op->fn, o.op->type, envs}, d); return;
+        }
         char envfull[64]; std::snprintf(envfull, sizeof envfull, "rc=%s ftz=%d daz=%d", RCNAME[env.rc], env.ftz, env.daz);
         // reference under the same ambient env (re-applied: the call may have broken it)
         apply_env(env);
@@ -402,11 +419,17 @@ struct FenvEngine : Engine {
         apply_env(env);
         const std::uint32_t mx0 = get_mxcsr(); const std::uint16_t cw0 = get_cw();
         asm volatile("" ::: "memory");
-        o->call(a, b, out);
+        bool returned = guarded([&] { o->call(a, b, out); });
         asm volatile("" ::: "memory");
         const std::uint32_t mx1 = get_mxcsr(); const std::uint16_t cw1 = get_cw();
         apply_env(Env());
-        o->call(a, b, out0);                 // same call under the default environment
+        if (!returned) {
+            // a trap inside an operation of the API slice is not a C10/C11 matter (values are not judged here): logged, the run goes on
+            rr.log.linef("%d api %s %s SIGNAL %d (observation)", stepno, o->fn, o->type, (int)g_opsig); stats.obs["api_operation_raised_signal"]++;
+            if (rr.observations.size() < 4) rr.observations.push_back(std::string(o->fn) + "(" + o->type + ") raised signal " + std::to_string((int)g_opsig));
+            return;
+        }
+        guarded([&] { o->call(a, b, out0); });                 // same call under the default environment
         const std::uint32_t mx2 = get_mxcsr(); const std::uint16_t cw2 = get_cw();
         apply_env(Env());
         char envs[48]; std::snprintf(envs, sizeof envs, "rc=%s", RCNAME[env.rc]);
